@@ -234,6 +234,10 @@ Definition summ_step (sm : summ) (x : xl) : summ :=
   | XRecvClosed s =>
       mkSumm (m_subs sm) (m_pubs sm) (m_recv sm) (m_tout sm) (m_closed sm) (s :: m_eof sm)
              (m_time sm) (m_lastgor sm) (m_bad sm || negb (zin s (m_closed sm)))
+  | XRecvEmpty s =>
+      (* Close has returned for s: its channel must be closed, an empty one reports "closed" *)
+      mkSumm (m_subs sm) (m_pubs sm) (m_recv sm) (m_tout sm) (m_closed sm) (m_eof sm)
+             (m_time sm) (m_lastgor sm) (m_bad sm || zin s (m_closed sm))
   | XTick k =>
       mkSumm (m_subs sm) (m_pubs sm) (m_recv sm) (m_tout sm) (m_closed sm) (m_eof sm)
              (m_time sm + k)%Z (m_lastgor sm) (m_bad sm)
@@ -307,9 +311,30 @@ Definition mon15 (tr : list xl) (o : obs) : bool :=
        (list_eqb zz_eqb (zzsort (expected_cbF sm)) (zzsort (o_cbF o))
         && accounted sm && (m_lastgor sm =? 0)%Z && complete_recv sm).
 
+(* buffer kept: what a subscriber receives between its close and the moment it sees "closed" is exactly
+   as many values as its channel held at the last quiescent point before the close *)
+Record bk := mkBk { b_lens : list Z; b_recv : list Z; b_close : list (Z * Z * Z); b_bad : bool }.
+Definition zcount (s : Z) (l : list Z) : Z := Z.of_nat (length (filter (Z.eqb s) l)).
+Definition bk_step (b : bk) (x : xl) : bk :=
+  match x with
+  | XQuiet lens _ _ => mkBk lens (b_recv b) (b_close b) (b_bad b)
+  | XRecvVal s _ _ => mkBk (b_lens b) (s :: b_recv b) (b_close b) (b_bad b)
+  | XCloseSub s =>
+      if existsb (fun c => (fst (fst c) =? s)%Z) (b_close b) then b
+      else mkBk (b_lens b) (b_recv b) ((s, nth (n s) (b_lens b) 0%Z, zcount s (b_recv b)) :: b_close b) (b_bad b)
+  | XRecvClosed s =>
+      match find (fun c => (fst (fst c) =? s)%Z) (b_close b) with
+      | Some (_, buffered, r) =>
+          mkBk (b_lens b) (b_recv b) (b_close b) (b_bad b || negb (zcount s (b_recv b) - r =? buffered)%Z)
+      | None => b
+      end
+  | _ => b
+  end.
+Definition buffer_kept_ok (tr : list xl) : bool := negb (b_bad (fold_left bk_step tr (mkBk [] [] [] false))).
+
 Definition mon10 (tr : list xl) (o : obs) : bool :=
   let sm := summarize tr in
-  negb (o_panic o) && negb (o_blocked o) && negb (m_bad sm) && implb (o_complete o) (complete_recv sm && (m_lastgor sm =? 0)%Z).
+  negb (o_panic o) && negb (o_blocked o) && negb (m_bad sm) && buffer_kept_ok tr && implb (o_complete o) (complete_recv sm && (m_lastgor sm =? 0)%Z).
 
 Definition verdict_with (mon : list xl -> obs -> bool) (c : case) : nat :=
   match c with
